@@ -71,6 +71,17 @@ Proof. intros [a r q p pl l]. reflexivity. Qed.
 Theorem move_ctor_is_identity : forall c, copy_over moved c = c.
 Proof. intros [a r q p pl l]. reflexivity. Qed.
 
+(* a default-constructed SerialBuffer: its bytes come from the member initialiser, so it is the all-zero image (which load() reads as
+   "inactive") whatever the memory held before *)
+Definition buffer_over (g : BitStream.bytes) : BitStream.bytes := pick "StreamBufferT::_data" (BitStream.buffer_clear (serial_bits cfg)) g.
+Theorem fresh_buffer_ignores_garbage : forall g, buffer_over g = BitStream.buffer_clear (serial_bits cfg).
+Proof. intro g. reflexivity. Qed.
+
+(* the catch-all: no scalar member of any record a machine is made of (tools/initfacts.py: RECORDS, minus the documented exemptions) is left
+   without an initialiser - also the members the model has no field for *)
+Theorem every_member_is_initialised : uninitialised_fields = [].
+Proof. reflexivity. Qed.
+
 (* ... which is what the multi-instance model assumes of a copy *)
 Theorem copy_core_is_copy_ctor : forall c, copy_core P c = copy_over copied c.
 Proof. intros [a r q p pl l]. reflexivity. Qed.
